@@ -264,3 +264,119 @@ Theorem C07_pointer_rule_differs :
   resolve_pointer doc p_1 = Some (JStr [100]%N) /\ resolve_pointer_legacy doc p_1 = Some (JStr [100]%N).
 Proof. exact pointer_rule_differs. Qed.
 Print Assumptions C07_pointer_rule_differs.
+
+(* ---- access histories on ONE schema object (the per-schema operation cache, specs/openapi/_cache.py) ----
+   A history is any list of: get_operation_by_id, get_operation_by_reference, schema[path][method], a traversal
+   (get_all_operations), schema.statistic (cached), _measure_statistic(), as_state_machine().  The lookups fill the
+   cache WITHOUT consulting the filters.  access_run false is the code, started in ANY state (any cache contents). *)
+
+(* whatever was looked up, built or measured before, every traversal offers exactly get_all_operations fs d, i.e.
+   (C07_offered_eq_filter) exactly the selected entries of the document, each once, in document order *)
+Theorem C07_access_offered_transparent : forall d fs h st l,
+  In (OOffered l) (access_run false d fs h st) -> l = offered_pairs (get_all_operations fs d).
+Proof. exact access_offered_transparent. Qed.
+Print Assumptions C07_access_offered_transparent.
+
+(* every statistic read in the history - the cached property or a new measurement - is the statistic of the filter set *)
+Theorem C07_access_statistic_fresh : forall d fs h st s,
+  astate_ok d fs st ->
+  In (OStatistic s) (access_run false d fs h st) -> s = stat_tuple (measure_statistic fs d).
+Proof. exact access_statistic_fresh. Qed.
+Print Assumptions C07_access_statistic_fresh.
+
+(* the reported number of selected operations equals the number of operations offered by every traversal of the same
+   history (region: filters do not depend on reference resolution; outside it C07_statistic_eq_offered_refuted, F1) *)
+Theorem C07_access_count_eq_offered_partial : forall d fs h t s lt ls l,
+  resolution_independent fs d = true ->
+  In (OStatistic (t, s, lt, ls)) (access_run false d fs h astate_init) ->
+  In (OOffered l) (access_run false d fs h astate_init) ->
+  s = length l.
+Proof. exact access_count_eq_offered. Qed.
+Print Assumptions C07_access_count_eq_offered_partial.
+
+(* a state machine built at any point of any history has no transition from or to an operation that is not offered:
+   a cached (possibly excluded) link target is dropped like a freshly resolved one *)
+Theorem C07_access_no_transition_to_unselected : forall d fs h st ts src status name tgt,
+  In (OMachine (Some ts)) (access_run false d fs h st) -> In (src, status, name, tgt) ts ->
+  In src (map op_label (get_all_operations fs d)) /\ In tgt (map op_label (get_all_operations fs d)).
+Proof. exact access_no_transition_to_unselected. Qed.
+Print Assumptions C07_access_no_transition_to_unselected.
+
+Theorem C07_access_transition_target_selected : forall d fs h st ts src status name tgt,
+  In (OMachine (Some ts)) (access_run false d fs h st) -> In (src, status, name, tgt) ts ->
+  exists p m od, tgt = label_of m p /\ (exists item, In (p, item) d /\ In (m, od) item) /\
+                 is_http_method m = true /\ fs_match fs (mk_ctx p m (od_resolved od)) = true.
+Proof. exact access_transition_target_selected. Qed.
+Print Assumptions C07_access_transition_target_selected.
+
+(* the state machine does not depend on the history - as long as every schema[path][method] access of the history
+   files its operation under an operationId that a fresh get_operation_by_id resolves to that same operation
+   (executable region item_accesses_consistent; in particular: histories without such an access) *)
+Theorem C07_access_transitions_stable_partial : forall d fs h st r,
+  item_accesses_consistent d h = true -> cache_ok d (as_cache st) ->
+  In (OMachine r) (access_run false d fs h st) -> r = option_map transition_tuples (collect_transitions fs d).
+Proof. exact access_transitions_stable. Qed.
+Print Assumptions C07_access_transitions_stable_partial.
+
+(* ... and does otherwise: with the duplicated operationId of finding C07-F2, schema[/a][get] makes the link resolve
+   to GET /a (one transition) where a fresh schema object resolves it to the excluded GET /b (none) *)
+Theorem C07_access_transitions_stable_refuted : exists d fs p m,
+  item_accesses_consistent d [AItem p m; AMachine] = false /\ unique_operation_ids d = false /\
+  collect_transitions fs d = Some [] /\
+  exists t, access_run false d fs [AItem p m; AMachine] astate_init = [OLookup (Some (p, m)); OMachine (Some [t])] /\
+            snd t = label_of m p.
+Proof. exists w_doc_F2, (fs_of w_calls_F2), w_s_a, w_s_get. exact access_transitions_stable_refuted. Qed.
+Print Assumptions C07_access_transitions_stable_refuted.
+
+(* the reported number of selected links equals the number of transitions of EVERY state machine built in the
+   history (regions of C07_links_selected_eq_transitions_partial + item_accesses_consistent) *)
+Theorem C07_access_links_eq_transitions_partial : forall d fs h t s lt ls ts,
+  resolution_independent fs d = true -> unique_operation_ids d = true -> unique_labels d = true ->
+  refs_name_methods d = true -> item_accesses_consistent d h = true ->
+  In (OStatistic (t, s, lt, ls)) (access_run false d fs h astate_init) ->
+  In (OMachine (Some ts)) (access_run false d fs h astate_init) ->
+  ls = length ts.
+Proof. exact access_links_eq_transitions. Qed.
+Print Assumptions C07_access_links_eq_transitions_partial.
+
+(* ... and false after schema[/a][POST] on a path item whose key is spelled Post (operationId opA, also the id of
+   DELETE /b): no filters, unique ids among the operations, 1 selected link reported, a fresh schema has 1 transition,
+   the accessed one has none (the link now resolves to the phantom POST /a, which is never offered): finding C07-F6 *)
+Theorem C07_access_links_eq_transitions_refuted : exists d fs h,
+  resolution_independent fs d = true /\ unique_operation_ids d = true /\ unique_labels d = true /\
+  refs_name_methods d = true /\ item_accesses_consistent d h = false /\
+  access_run false d fs h astate_init =
+    [OLookup (Some (w_s_a, [112;111;115;116]%N)); OStatistic (2, 2, 1, 1); OMachine (Some [])] /\
+  option_map (@length transition) (collect_transitions fs d) = Some 1.
+Proof. exists w_doc_F6, fs_empty, [AItem w_s_a [80;79;83;84]%N; AMeasure; AMachine]. exact access_links_eq_transitions_refuted. Qed.
+Print Assumptions C07_access_links_eq_transitions_refuted.
+
+(* sentinel: in the variant where the traversal takes operation-cache hits BEFORE the filter test (and files what it
+   builds), looking the excluded GET /b up by its operationId makes the next traversal offer it (3 offered, 2 reported);
+   the real traversal on the same history does not - so the theorems above are about the code not reading the cache *)
+Theorem C07_cache_reuse_not_transparent : exists d fs h p m,
+  fs_match fs (mk_ctx p m (JObj [])) = false /\
+  (exists l, In (OOffered l) (access_run true d fs h astate_init) /\ In (p, m) l /\ length l = 3) /\
+  (exists l, In (OOffered l) (access_run false d fs h astate_init) /\ ~ In (p, m) l /\ length l = 2) /\
+  In (OStatistic (3, 2, 1, 1)) (access_run true d fs h astate_init).
+Proof.
+  exists w_doc_F2, (fs_of w_calls_F2), [AById w_s_getX; ATraverse; AMeasure], w_s_b, w_s_get.
+  exact cache_reuse_not_transparent.
+Qed.
+Print Assumptions C07_cache_reuse_not_transparent.
+
+(* non-vacuity of the access-history theorems: a history with a (consistent) schema[path][METHOD] access, lookups of
+   the excluded operation, traversals, cached and fresh statistics and state machines *)
+Theorem C07_access_hypotheses_satisfiable : exists d fs h,
+  item_accesses_consistent d h = true /\ no_item_access h = false /\ resolution_independent fs d = true /\
+  cache_ok d (as_cache astate_init) /\
+  length (access_run false d fs h astate_init) = 10 /\
+  In (OLookup (Some (w_s_b, w_s_get))) (access_run false d fs h astate_init) /\
+  In (OMachine (Some [])) (access_run false d fs h astate_init) /\
+  In (OStatistic (3, 2, 1, 1)) (access_run false d fs h astate_init).
+Proof.
+  exists w_doc_F2, (fs_of w_calls_F2),
+    [ATraverse; AItem [47;115;114;99]%N [80;79;83;84]%N; AById w_s_getX; AStat; AMachine; AByRef (s_paths_prefix ++ [126;49;98;47]%N ++ w_s_get); ATraverse; AMachine; AStat; AMeasure].
+  exact access_hypotheses_satisfiable.
+Qed.
+Print Assumptions C07_access_hypotheses_satisfiable.
